@@ -305,6 +305,9 @@ def main():
                         samples.append(obligation_name(prop, u, pr))
                 elif pr['status'] == 'FAILURE' and pr['desc'].startswith('unwinding assertion') and not u.get('unwind_is_invariant'):
                     undecided.append((u, dict(r, reason='unwinding bound too small: %s at %s:%s' % (pr['id'], pr.get('file'), pr.get('line')))))
+                elif pr['status'] == 'FAILURE' and 'indirect call: callee not among address-taken functions' in pr['desc']:
+                    # ir2c's devirtualising dispatcher met a function pointer it cannot resolve: extraction limit, not a violation
+                    undecided.append((u, dict(r, reason='unresolvable indirect call in the translated code: %s' % obligation_name(prop, u, pr)[:220])))
                 elif pr['status'] == 'FAILURE' and 'undefined function should be unreachable' in pr['desc']:
                     # DFCC gives body-less functions the body assert(false): the code reached a dependency for which no model / assumed
                     # contract exists - the unit cannot decide anything about that path (not a violation)
